@@ -155,6 +155,12 @@ theorem gen_methods_delegate :
 theorem gen_methods_stateless : Generated.C13.interferogramSpectralMethodsStateless = true := by
   decide
 
+/-- no helper of `fttools` / `coordinates` whose returned array a routine of `interferogram.py` writes into in place
+(`render_synthetic_surface` overwrites the zero-frequency element of the axis `forward_ft_unit` hands it) is memoised: every call
+gets its own array, so a synthesis call cannot change the frequency axes a later `psd` / `bandlimited_rms` sees -/
+theorem gen_helper_results_not_shared : Generated.C13.helperResultsWrittenInPlaceAreNotMemoised = true := by
+  decide
+
 /-! ## the spectrum sits on the returned axes -/
 
 /-- the spectrum returned by `psd` sits on the returned axes: the sample displayed at position `i` has
